@@ -4,7 +4,7 @@
 
   A tensor is `shape : List Nat` plus flat row-major `data : List Rat`.  The helpers are mirrored
   function for function, with the Python name in the comment:
-    _get_scaling_axis, _validate_axis_and_eps, _get_unrolled_shape, _get_rolled_back_shape,
+    _normalize_scale_axis, _get_scaling_axis, _validate_axis_and_eps, _get_unrolled_shape, _get_rolled_back_shape,
     _repeat_along_axes, _get_scale_mean (index level).
   `tf.reshape` is the identity on flat data, i.e. `unravel newShape ∘ ravel oldShape` on indices;
   a `keepdims` reduction over an axis set sends an index to the index with those axes zeroed;
@@ -69,19 +69,26 @@ inductive AxisArg
   | many (l : List Int)
   deriving Repr, DecidableEq
 
-def AxisArg.nonneg : AxisArg → Bool
-  | .none => true
-  | .one a => decide (0 ≤ a)
-  | .many l => l.all fun a => decide (0 ≤ a)
+/-- `_normalize_scale_axis(scale_axis, len_axis)` on one axis: a negative axis is counted from the end
+    (`a + len_axis`, the numpy / TF convention); non-negative axes pass untouched -/
+def normAxis (len : Nat) (a : Int) : Int := if a < 0 then a + (len : Int) else a
 
-/-- what `_get_scaling_axis` makes of negative axes (no `elements_per_scale`): a negative int reaches
-    `tf.range(scale_axis)` which raises (InvalidArgumentError "Requires start <= limit"); a negative entry
-    of a list never equals an `i in range(len_axis)`, so it is silently IGNORED (`scale_axis=[-1]` reduces
-    over every axis: one scale for the whole tensor) — numpy's "-1 = last axis" convention is not honoured -/
-def axisOfArg : AxisArg → Except Err AxisSpec
+/-- every axis, once normalised, is a non-negative index (i.e. no axis below `-len`) -/
+def AxisArg.inRange (len : Nat) : AxisArg → Bool
+  | .none => true
+  | .one a => decide (0 ≤ normAxis len a)
+  | .many l => l.all fun a => decide (0 ≤ normAxis len a)
+
+/-- what `_get_scaling_axis` / `_get_scale_mean` make of the axes Python hands over for a tensor of rank
+    `len` (since the fix `negative scale_axis is counted from the end`): every negative axis is first
+    replaced by `axis + len`.  An axis that is STILL negative (below `-len`, not a valid axis of the tensor)
+    behaves as before: the int reaches `tf.range(negative)` which raises, the list entry never equals an
+    `i in range(len_axis)` and is ignored. -/
+def axisOfArg (len : Nat) : AxisArg → Except Err AxisSpec
   | .none => .ok .none
-  | .one a => if a < 0 then .error .valueError else .ok (.one a.toNat)
-  | .many l => .ok (.many (l.filterMap fun a => if a < 0 then Option.none else some a.toNat))
+  | .one a => if normAxis len a < 0 then .error .valueError else .ok (.one (normAxis len a).toNat)
+  | .many l => .ok (.many (l.filterMap fun a =>
+      if normAxis len a < 0 then Option.none else some (normAxis len a).toNat))
 
 /-- `_validate_axis_and_eps(x_shape, scale_axis, elements_per_scale)` (elements_per_scale not None) -/
 def validateAxisEps (shape : List Nat) (sa : AxisSpec) (eps : EpsSpec) : Except Err (List Nat × List Nat × Bool) :=
